@@ -76,7 +76,7 @@ func c17openConns(cl *fakenode.Cluster) []string {
 		for _, rq := range sc.AllRequests() {
 			ops = append(ops, fmt.Sprintf("%#x", rq.Header.Op))
 		}
-		out = append(out, fmt.Sprintf("node %s conn #%d control=%v requests=%v outstanding=%d", sc.Node.IP, sc.Index, sc.IsControl, ops, sc.Outstanding()))
+		out = append(out, fmt.Sprintf("node %s conn #%d control=%v requests=%v outstanding=%d", sc.Node.IP, sc.Index, sc.Control(), ops, sc.Outstanding()))
 	}
 	return out
 }
@@ -398,7 +398,7 @@ func c17case(c *runner.Ctx, i int) {
 			n := nodes[r.Intn(len(nodes))]
 			var victim *fakenode.ServerConn
 			for _, sc := range n.OpenConns() {
-				if !sc.IsControl {
+				if !sc.Control() {
 					victim = sc
 					break
 				}
